@@ -34,7 +34,11 @@ REGISTRATION = {
             "then hammered under `go test -race` (random mix incl. failing loads and clients that go away, plus a directed "
             "ps-during-failed-load search, and a directed store-race search: a reader of a model stalled on a named pipe "
             "at every blob of its manifest while delete / re-create / copy-over runs on the same name); every race report must fall on a statically flagged pair, and HTTP results are "
-            "monitored for recovered panics, process crashes, /api/ps 5xx, /api/ps that never returns and torn /api/ps views.",
+            "monitored for recovered panics, process crashes, /api/ps 5xx, /api/ps that never returns and torn /api/ps views; "
+            "one more -race process issues concurrent /api/pull requests for the same model (two tags sharing their blobs) against an "
+            "in-memory registry + CDN, with ps / tags / delete alongside (transfer manager, blobDownload, parts). The translator's "
+            "lockset claims themselves are cross-checked at run time: the hammer also runs on a build where every claimed mutex is "
+            "TryLock'ed in front of the statement containing the access (about 100 sites; a success refutes the claim).",
     "design_ref": "DESIGN.md §5 C15",
     "note": COMMON_NOTE + "Partial by nature: the theorem is about lock-granularity traces and takes the non-lock "
             "orderings as named hypotheses (atomics/sync.Map, close(done), two accesses before the same "
@@ -65,6 +69,7 @@ THEOREMS = [
     "OllamaVerif.Lockset.liveAt_not_cleared",
     "OllamaVerif.Lockset.validAt_not_cleared",
     "OllamaVerif.Lockset.stale_rule_sound",
+    "OllamaVerif.Lockset.no_nil_deref_panic",
     "OllamaVerif.Lockset.desc_after_fork",
     "OllamaVerif.Lockset.fork_tagged_pair_ordered",
     "OllamaVerif.Lockset.lockset_discipline_race_free_fork",
@@ -83,11 +88,13 @@ THEOREMS = [
     "OllamaVerif.Tie.C15.stale_exact",
     "OllamaVerif.Tie.C15.no_stale_reads",
     "OllamaVerif.Tie.C15.no_use_of_torn_down_runner",
+    "OllamaVerif.Tie.C15.no_panic_on_torn_down_runner",
     "OllamaVerif.Tie.C15.teardown_locks",
     "OllamaVerif.Tie.C15.holder_granted_runner_is_open",
     "OllamaVerif.Tie.C15.holder_runner_not_closed_while_used",
 ]
-OVERLAY = {"server/zz_verif_c15_test.go": "server/zz_verif_c15_test.go"}
+OVERLAY = {"server/zz_verif_c15_test.go": "server/zz_verif_c15_test.go",
+           "server/zz_verif_c15pull_test.go": "server/zz_verif_c15pull_test.go"}
 LOCKSET_DIR = os.path.join(core.ROOT, "harness", "cmd", "lockset")
 
 
@@ -115,7 +122,8 @@ def regenerate(ctx):
         raise RuntimeError("lockset build failed: " + p.stdout[-2000:])
     lean_tmp = os.path.join(ctx.tmp, "C15_Accesses.lean")
     js = os.path.join(ctx.tmp, "facts.json")
-    p = subprocess.run([binp, "-repo", core.REPO, "-lean", lean_tmp, "-json", js], env=env,
+    ctx.inst_dir = os.path.join(ctx.tmp, "instrumented")
+    p = subprocess.run([binp, "-repo", core.REPO, "-lean", lean_tmp, "-json", js, "-instrument", ctx.inst_dir], env=env,
                        stdout=subprocess.PIPE, stderr=subprocess.STDOUT, text=True)
     if p.returncode != 0:
         raise RuntimeError("lockset failed: " + p.stdout[-2000:])
@@ -136,6 +144,43 @@ def sched_variant(ctx):
         ctx.stats["sched_probe_ran"] = int(bool(probed[0]))
         return sched_common.regenerate(ctx, probed)
     return sched_common.regenerate(ctx)
+
+
+def claims_check(ctx, facts):
+    """Run-time cross-check of the translator's lockset claims (the `Conforms` hypothesis of the theorems): the request
+    hammer runs on a build in which every claimed mutex is TryLock'ed in front of the statement that contains the access
+    (copies of the source files written by `lockset -instrument`, added with -overlay; line numbers unchanged).  A TryLock
+    that succeeds refutes the claim: the translator is unsound for that site."""
+    overlay = {"server/zz_verif_c15_test.go": "server/zz_verif_c15_test.go"}
+    for fn in sorted(os.listdir(ctx.inst_dir)):
+        if fn.endswith(".go"):
+            overlay["server/" + fn] = os.path.join(ctx.inst_dir, fn)   # absolute: kept as is by core.overlay_json
+    n_sites = len({(c["site"], c["lock"]) for c in facts.get("claims") or []})
+    ctx.stats["claims_instrumented_sites"] = n_sites
+    executed, false_sites, built = 0, set(), True
+    for i in range(ctx.scale(2, 4)):
+        outdir = os.path.join(ctx.tmp, f"claims-{i}")
+        os.makedirs(outdir)
+        env = {"VERIF_SECS": ctx.scale(4, 20), "VERIF_ROUNDS": 2, "VERIF_WORKERS": 8, "VERIF_TRIALS": ctx.scale(30, 200),
+               "VERIF_STORE_SWEEPS": 0, "VERIF_SEED": ctx.seed * 1000 + 500 + i}
+        rc, out, _ = ctx.go_test("./server/", overlay, "^TestVerifC15$", env=env, timeout=400, outdir=outdir)
+        if rc != 0 and ("[build failed]" in out or "[setup failed]" in out):
+            built = False
+            ctx.notes.append("instrumented build failed (claims not cross-checked): " + out[-400:])
+            break
+        cp = os.path.join(outdir, "claims.txt")
+        for ln in (open(cp) if os.path.exists(cp) else []):
+            if ln.startswith("tick "):
+                executed += 1000
+            elif ln.startswith("false "):
+                false_sites.add(ln[6:].strip())
+    ctx.stats["claims_executed_at_least"] = executed
+    ctx.coverage["claims_instrumented_build"] = built
+    for site in sorted(false_sites):
+        ctx.violation("lockset-claim-false", site, "the translator says this mutex is held at this access, but at run time it was "
+                      "free (TryLock succeeded in front of the statement): the access facts are unsound for this site", no_input=False)
+    if built and executed == 0 and n_sites > 0:
+        ctx.violation("correspondence-coverage", "claims", "no lockset claim was exercised at run time", no_input=True)
 
 
 def rule_l1(ctx):
@@ -439,6 +484,10 @@ def run(ctx):
         ctx.violation("correspondence-coverage", "tree", "the access table regenerated from the tree never exercises these branches "
                       "of the rules the tie theorems rest on: " + ", ".join(tmissing), no_input=True)
 
+    # ---- dynamic: the translator's lockset claims, checked on the running code
+    if not ctx.replay:
+        claims_check(ctx, facts)
+
     # ---- dynamic: witness search under the race detector (several processes: the pinned
     # server can crash the process or wedge its scheduler)
     # (seconds of random hammering, rounds, workers, GOMAXPROCS, directed ps-during-failed-load trials)
@@ -446,17 +495,20 @@ def run(ctx):
                      [(40, 8, 12, None, 600), (40, 8, 16, 4, 600), (40, 8, 8, 2, 600), (40, 8, 24, 16, 600), (40, 8, 12, 1, 300)])
     if ctx.replay:
         runs = runs[:1]
+    # + one process of concurrent pulls against an in-memory registry (transfer manager, blobDownload, parts)
+    pulls = ctx.scale(3, 12)
+    jobs = [("^TestVerifC15$", r) for r in runs] + ([] if ctx.replay else [("^TestVerifC15Pull$", (pulls * 3, 0, 0, None, 0))])
     races_total = exact = unitlvl = derived = 0
-    for i, (secs, rounds, workers, procs, trials) in enumerate(runs):
+    for i, (test, (secs, rounds, workers, procs, trials)) in enumerate(jobs):
         outdir = os.path.join(ctx.tmp, f"race-{i}")
         os.makedirs(outdir)
         env = {"VERIF_SECS": secs, "VERIF_ROUNDS": rounds, "VERIF_WORKERS": workers, "VERIF_TRIALS": trials,
-               "VERIF_STORE_SWEEPS": ctx.scale(1, 3) if i == 0 else 0,
+               "VERIF_STORE_SWEEPS": ctx.scale(1, 3) if i == 0 else 0, "VERIF_PULLS": pulls,
                "VERIF_SEED": ctx.seed * 1000 + i,
                "GORACE": f"log_path={outdir}/race halt_on_error=0 history_size=3"}
         if procs:
             env["GOMAXPROCS"] = procs
-        rc, out, _ = ctx.go_test("./server/", OVERLAY, "^TestVerifC15$", env=env, race=True,
+        rc, out, _ = ctx.go_test("./server/", OVERLAY, test, env=env, race=True,
                                  timeout=secs + rounds * 8 + trials // 2 + 240, outdir=outdir)
         text = out + "".join(open(p, errors="replace").read() for p in sorted(glob.glob(outdir + "/race.*")))
         races = parse_races(text, core.REPO)
@@ -490,7 +542,8 @@ def run(ctx):
         ctx.classify(l2, matcher)
     ctx.stats["race_reports"] = races_total
     if not ctx.replay:
-        floors = {"cases": ctx.scale(300, 3000), "op_ps": 1, "ps_nonempty": 1, "failedload_ps_requests": 1, "storerace_trials": 1}
+        floors = {"cases": ctx.scale(300, 3000), "op_ps": 1, "ps_nonempty": 1, "failedload_ps_requests": 1, "storerace_trials": 1,
+                  "pull_pull_2xx": 1}
         low = [f"{k}={ctx.stats.get(k, 0)}<{v}" for k, v in floors.items() if ctx.stats.get(k, 0) < v]
         if low:
             ctx.violation("correspondence-coverage", "dynamic", "the witness search did not run as configured: " + ", ".join(low),
